@@ -41,20 +41,29 @@ def strategy(draw):
     order = list(draw(st.permutations([0, 1, 2])))
     # the three kinds of case are drawn jointly (independent draws of "no explicit orientation" and "well-formed file" left the
     # plain combination - orientation taken from the file's own metadata - at zero cases in some runs)
-    mode = draw(gen.choice(["plain", "explicit", "plain", "negative", "plain", "explicit", "negative"]))
-    case = dict(format=fmt, n=n, fs=fs, order=order, seed=draw(gen.seeds32), prefix=draw(gen.choice(PREFIX)),
-                dfn=(draw(st.one_of(gen.floats(-720, 720), st.sampled_from([0.0, 90.0, 400.0]))) if (mode == "explicit" or (mode == "negative" and draw(st.booleans()))) else None),
-                negative=(draw(gen.choice(["duplicate", "count-more", "missing", "count-fewer", "garbage"])) if mode == "negative" else None))
+    # Hypothesis builds new examples by mutating earlier ones, which correlates independent draws within a shard (the plain
+    # SAF combination, and later PEER with an explicit orientation of 0, had zero cases in whole runs).  The case kind, the
+    # explicit orientation and the kind of malformation are therefore derived from the low digits of one drawn 32-bit seed.
+    seed = draw(gen.seeds32)
+    pick = np.random.Generator(np.random.PCG64(seed)).integers(0, 2 ** 30, size=8)      # (drawn seeds are not uniform either: mixed first)
+    mode = ["plain", "explicit", "plain", "negative", "plain", "explicit", "negative"][int(pick[0]) % 7]
+    dfn_float = draw(gen.floats(-720, 720))
+    dfn_pick = [dfn_float, 0.0, 90.0, dfn_float, 400.0, 0.0][int(pick[1]) % 6]
+    neg_pick = ["duplicate", "count-more", "missing", "count-fewer", "garbage"][int(pick[2]) % 5]
+    case = dict(format=fmt, n=n, fs=fs, order=order, seed=seed, prefix=draw(gen.choice(PREFIX)),
+                dfn=(dfn_pick if (mode == "explicit" or (mode == "negative" and int(pick[3]) % 2 == 0)) else None),
+                negative=(neg_pick if mode == "negative" else None))
     if fmt in ("mseed1", "mseed3"):
         case["dtype"] = draw(gen.choice(["int32", "float32", "float64"]))
     if fmt == "sac":
         case["byteorder"] = draw(st.sampled_from(["<", ">"]))
     if fmt == "saf":
-        case["assign"] = list(draw(st.permutations(["V", "N", "E"])))      # CH0, CH1, CH2
-        case["north_rot"] = draw(st.one_of(st.just(0), st.integers(1, 359), st.integers(1, 359)))
+        import itertools
+        case["assign"] = list(list(itertools.permutations(["V", "N", "E"]))[int(pick[4]) % 6])      # CH0, CH1, CH2
+        case["north_rot"] = 0 if int(pick[5]) % 3 == 0 else 1 + int(pick[5]) % 359
         case["crlf"] = draw(st.booleans())
         # the format allows '#' comment lines and any keyword order in the header: field notes of 0-150 lines
-        case["saf_comments"] = dict(n=draw(st.sampled_from([0, 0, 2, 12, 60, 150])), at=draw(st.sampled_from(["top", "middle", "mixed"])),
+        case["saf_comments"] = dict(n=[0, 0, 2, 12, 60, 150, 150][int(pick[6]) % 7], at=["top", "middle", "mixed"][int(pick[7]) % 3],
                                     shuffle=draw(st.booleans()), seed=draw(gen.seeds32),
                                     # converted from a MiniShark recording: the original header kept as comments, tab-separated columns
                                     shark=draw(gen.chance(4)))
